@@ -31,6 +31,9 @@ TResult == /\ Ev.e = "Result"
 AlignOK == /\ Clause("words-are-segments", WordsAreSegments(Ev, res.segs))
            /\ Clause("phones-are-pronunciation", PhonesArePronunciation(Ev))
            /\ Clause("states-are-emitting-states", StatesAreEmittingStates(Ev))
+           \* ... of the model the model definition has for the phone between its neighbours in the alignment (silence
+           \* before the first and after the last word)
+           /\ Clause("models-are-those-of-the-neighbouring-phones", Ev.flat_sseq = Ev.ctx_sseq)
            /\ Clause("children-partition-parents", ChildrenPartitionParents(Ev))
            /\ Clause("levels-contiguous-from-zero", EveryLevelContiguous(Ev))
            /\ Clause("parent-score-is-sum", ParentScoreIsSum(Ev))
